@@ -1008,3 +1008,142 @@ def bigram_details_shape(ctx):
                "the left feature id is looked up as position %+d in bigram_weight_indices(): the "
                "feature text of a neighbouring id is written in front of the costs" % c_)
     ctx.floor("BIGRAMROW", "id lookups by table position", n, 1)
+
+
+def mecab_ids(ctx):
+    """MECABIDS (C20): the error and density clauses of mecab::generate_bigram_info.
+      * a line of left-id.def / right-id.def that does not match `<id> <features>` reaches Err only;
+      * id 0 whose first feature is not "BOS/EOS" reaches Err only (the test is `!=`);
+      * both output loops run over 1..len(ids read) and a missing id reaches Err only (gap);
+      * model.def feature text has "BOS/EOS" removed before it is split at '/', so that BOS/EOS
+        lines pair with the empty feature id."""
+    from flow import result_exits, bool_switch_targets
+    crate = ctx.facts("A").lib
+    E = Effects(crate)
+    p = "vibrato::mecab::generate_bigram_info"
+    f = crate.fns.get(p)
+    if f is None or not f.body:
+        raise EngineError("MECABIDS: anchor lost: %s" % p)
+    fa = E.fa(p)
+    S = Sym(E, fa)
+    loc = "%s:%s" % (f.file, f.line)
+    ok_b, err_b, _ = result_exits(fa)
+
+    def err_only(b):
+        return not (fa.reachable(b) & ok_b)
+
+    def option_switch(call_block):
+        """the switch on the discriminant of the Option a call returned: (some_target, none_target)"""
+        t = fa.term(call_block)
+        dest = t["dest"]["l"]
+        for sb in sorted(fa.live_blocks()):
+            st = fa.term(sb)
+            if st["k"] != "switch" or not fa.dominates(call_block, sb):
+                continue
+            o = fa.origin(st["op"])
+            if o[0] == "rv" and o[1]["k"] == "discr" and o[1]["place"]["l"] == dest:
+                arms = dict(zip(st["vals"], st["targets"]))
+                return arms.get(1, st["otherwise"]), arms.get(0, st["otherwise"])
+        return None
+    # (a) captures() misses
+    caps = [b for b, t in fa.calls() if "captures" in {strip_generics(x).rsplit("::", 1)[-1] for x in callee_paths(t)}]
+    id_caps = []
+    for b in caps:
+        sw = option_switch(b)
+        if sw is None:
+            continue
+        id_caps.append((b, sw))
+    # the two id readers are the captures whose None arm is expected to fail; the model.def reader
+    # skips unmatched lines by design. Tell them apart by the regex constant they use.
+    n_err = sum(1 for b, (s, n) in id_caps if err_only(n))
+    ctx.ob("MECABIDS", "%s|malformed-id-line-is-error" % p, n_err >= 2, loc,
+           "a line of either id file that is not `<id> <features>` leads to Err (%d readers)" % n_err
+           if n_err >= 2 else
+           "only %d of the two id-file readers return Err for a line that does not match "
+           "`<id> <features>`: malformed lines are skipped silently and ids go missing" % n_err)
+    # (b) id 0 must be BOS/EOS
+    n0 = 0
+    for b in sorted(fa.live_blocks()):
+        t = fa.term(b)
+        if t["k"] != "switch":
+            continue
+        e = S.operand(t["op"])
+        if e[0] == "binop" and e[1] in ("Eq", "Ne") and strip_casts(e[3]) == ("const", 0) and "parse" in show(e[2]):
+            f_t, t_t = bool_switch_targets(t)
+            zero_t = t_t if e[1] == "Eq" else f_t
+            # on the id == 0 edge: is_some_and(closure) whose true edge reaches Err only
+            for cb in sorted(fa.reachable(zero_t)):
+                ct = fa.term(cb)
+                if ct["k"] == "call" and "is_some_and" in {strip_generics(x).rsplit("::", 1)[-1] for x in callee_paths(ct)}:
+                    cl = E.closure_of_operand(fa, ct["args"][1])
+                    neq = False
+                    if cl is not None:
+                        cfa = E.fa(cl[0])
+                        for xb, xt in cfa.calls():
+                            nm = {strip_generics(x).rsplit("::", 1)[-1] for x in callee_paths(xt)}
+                            lits = [cfa.origin(a) for a in xt["args"]]
+                            has_lit = any(o[0] == "const" and (o[1].get("str") == "BOS/EOS" or
+                                                               bytes(o[1].get("bytes") or []) == b"BOS/EOS")
+                                          for o in lits)
+                            if "ne" in nm and has_lit:
+                                neq = True
+                    sw = ct.get("t")
+                    st = fa.term(sw) if sw is not None else None
+                    if st is not None and st["k"] == "switch":
+                        ff, tt = bool_switch_targets(st)
+                        if neq and err_only(tt) and not err_only(ff):
+                            n0 += 1
+                    break
+    ctx.ob("MECABIDS", "%s|id-0-must-be-BOS/EOS" % p, n0 >= 2, loc,
+           "in both id files, id 0 with a first feature other than \"BOS/EOS\" leads to Err" if n0 >= 2 else
+           "the test `id == 0 and first feature != \"BOS/EOS\" => Err` holds for %d of the two id "
+           "files: a wrong id 0 is accepted (or a correct one rejected)" % n0)
+    # (c) output loops 1..len(map), gaps are errors
+    loops = 0
+    gaps = 0
+    for b, i, s in fa.stmts():
+        rv = s.get("rv")
+        if rv and rv["k"] == "agg" and str(rv.get("adt", "")).endswith("ops::Range") and len(rv["ops"]) == 2:
+            lo, hi = S.operand(rv["ops"][0]), S.operand(rv["ops"][1])
+            if strip_casts(lo) == ("const", 1) and strip_casts(hi)[0] == "call" and strip_casts(hi)[1].endswith("::len"):
+                loops += 1
+    for b, t in fa.calls():
+        nm = {strip_generics(x).rsplit("::", 1)[-1] for x in callee_paths(t)}
+        if "get" in nm and "HashMap" in " ".join(callee_paths(t)) and len(t["args"]) == 2:
+            key = show(S.operand(t["args"][1]))
+            if "next(" in key or ".[]" in key:
+                sw = option_switch(b)
+                if sw is not None and err_only(sw[1]) and fa.fn.locals[t["dest"]["l"]]["ty"].count("Vec<") >= 1:
+                    gaps += 1
+    ctx.ob("MECABIDS", "%s|dense-ids-from-1" % p, loops == 2, loc,
+           "both id lists are written for id in 1..(number of ids read)" if loops == 2 else
+           "%d of the two output loops run over 1..len(ids): an id is skipped, id 0 is written, or "
+           "the loop asks for an id beyond the last one" % loops)
+    ctx.ob("MECABIDS", "%s|gap-is-error" % p, gaps == 2, loc,
+           "an id missing from the sequence leads to Err in both loops" if gaps == 2 else
+           "a gap in the id sequence is an error in only %d of the two output loops" % gaps)
+    # (d) BOS/EOS removed from model.def features before splitting
+    okr = False
+    for b, t in fa.calls():
+        nm = {strip_generics(x).rsplit("::", 1)[-1] for x in callee_paths(t)}
+        if "split" in nm and len(t["args"]) >= 2:
+            chain = []
+            cur = t["args"][0]
+            for _ in range(8):
+                o = fa.origin(cur)
+                if o[0] != "call":
+                    break
+                cn = sorted({strip_generics(x).rsplit("::", 1)[-1] for x in callee_paths(o[2])})[0]
+                chain.append(cn)
+                if cn == "replace":
+                    lits = [fa.origin(a) for a in o[2]["args"][1:]]
+                    okr = okr or (lits and lits[0][0] == "const" and lits[0][1].get("str") == "BOS/EOS"
+                                  and len(lits) > 1 and lits[1][0] == "const" and lits[1][1].get("str") == "")
+                if not o[2]["args"]:
+                    break
+                cur = o[2]["args"][0]
+    ctx.ob("MECABIDS", "%s|BOS/EOS-becomes-empty-feature" % p, bool(okr), loc,
+           "model.def feature text has \"BOS/EOS\" replaced by the empty string before it is split at '/'"
+           if okr else
+           "the model.def feature text is split at '/' without removing \"BOS/EOS\" first: the "
+           "BOS/EOS lines are split into three parts and never pair with the empty feature")
